@@ -360,9 +360,11 @@ INCR_RULE = ("source command streams of up to 25 commands drawn from a grammar: 
 prop("C03",
      title="Incremental sync forwards the filtered command stream in order, exactly once",
      timing=True,
-     quick=[{"re": "^TestC03$", "checks": 24, "shards": 4, "timeout": 600}],
-     thorough=[{"re": "^TestC03$", "checks": 2800, "shards": 14, "timeout": 1700}],
-     rule=INCR_RULE + "Oracle: reference model written from the statement (source-selected db tracking, db filter, PING forwarded unless the selected db is filtered, OPINFO/lua/sentinel-hello/MULTI/EXEC never "
+     quick=[{"re": "^TestC03$", "checks": 24, "shards": 4, "timeout": 600},
+            {"re": "^TestC03Volume$", "checks": 3, "timeout": 600}],
+     thorough=[{"re": "^TestC03$", "checks": 2800, "shards": 14, "timeout": 1700},
+               {"re": "^TestC03Volume$", "checks": 60, "shards": 2, "timeout": 1700}],
+     rule="(volume, TestC03Volume) one stream of 40000-70000 SET commands delivered in 1-4 pieces with metrics on and the delay queue at its unconfigured size (32) or 4096: every command reaches the target in order within 25 s. " + INCR_RULE + "Oracle: reference model written from the statement (source-selected db tracking, db filter, PING forwarded unless the selected db is filtered, OPINFO/lua/sentinel-hello/MULTI/EXEC never "
           "applied, reference key-filter rewrite from C13, destination db = source db or target.db) => expected sequence of (db, command, args); observed = "
           "the model target's command log in execution order with the db each command ran in (tool-own SELECT/MULTI/EXEC/checkpoint HSET and PING left out); "
           "sequences must be equal (order, exactly once, byte-identical args, right db) and complete within 5 s of the last source byte while the stream "
